@@ -67,6 +67,11 @@ def async_part(chk, lib, thorough):
         for k in range(nsched):
             lines.append("a%d.%d %d %d %d %d %d %d %s" % (i, k, rng.below(1 << 31), [0, 3, 0, 1][k % 4], psize, qcap,
                                                          nfiles, rot, prog))
+    # entries and backlogs whose scatter lists exceed the kernel's per-writev limit (IOV_MAX)
+    for k in range(3 if not thorough else 10):
+        lines.append("h%d %d %d 32 4 1 0 0:%d" % (k, rng.below(1 << 31), [0, 3, 1][k % 3], (1024 + 76 + 5 * k) * 32 - 7))
+        lines.append("b%d %d %d 32 128 1 -5000 %s" % (k, rng.below(1 << 31), [0, 3, 1][k % 3],
+                                                     "|".join(",".join("0:%d" % (15 * 32 + j) for j in range(45)) for _ in range(2))))
     out = chk.run_cases(exe, lines, timeout=900)
     WHAT = {"intact": "a file stream is not a sequence of intact entries (bytes lost, mixed or invented)",
             "once": "an entry written before close() did not reach its file exactly once",
